@@ -24,7 +24,26 @@ MAT = "porepy/grids/match_grids.py"
 SS = "porepy/models/solution_strategy.py"
 NL = "porepy/numerics/nonlinear/nonlinear_solvers.py"
 
+EX = "porepy/viz/exporter.py"
+DS = "porepy/viz/data_saving_model_mixin.py"
+TS = "porepy/numerics/time_step_control.py"
+
 MUTANTS = {
+    "C38": [
+        {"name": "revert_cell_type_regrouping", "file": EX, "old": "                    ordered_value[cell_ids] = value\n", "new": "                    ordered_value[:] = value\n"},
+        {"name": "time_step_counter_off_by_one", "file": DS, "old": "        self.exporter._time_step_counter = time_index\n\n    def load_data_from_pvd", "new": "        self.exporter._time_step_counter = time_index + 1\n\n    def load_data_from_pvd"},
+        {"name": "restored_time_one_entry_early", "file": TS, "old": "        self.time = self.exported_times[time_index]\n", "new": "        self.time = self.exported_times[time_index - 1]\n"},
+        {"name": "revert_numeric_latest_time", "file": EX,
+         "old": "            restart_timestep_str = timesteps[\n                int(np.argmax([float(timestep) for timestep in timesteps]))\n            ]",
+         "new": "            restart_timestep_str = np.unique(timesteps)[-1]"},
+        {"name": "revert_index_from_file_name", "file": EX, "old": "            time_index = int(Path(restart_vtu_files[-1]).stem[-self._padding :])", "new": "            time_index = int(float(restart_timestep_str))"},
+        {"name": "revert_append_times", "file": DS, "old": "            times = times[len(times) - len(self.exporter._exported_timesteps) :]\n", "new": ""},
+        {"name": "exported_dt_logs_dt_init", "file": TS, "old": "            int(self.dt) if isinstance(self.dt, np.integer) else float(self.dt)", "new": "            int(self.dt) if isinstance(self.dt, np.integer) else float(self.dt_init)"},
+        {"name": "vector_data_ravel_F", "file": EX, "old": "            return np.ravel(value, \"C\")", "new": "            return np.ravel(value, \"F\")"},
+        {"name": "revert_polyhedron_block_order", "file": EX,
+         "old": "        for cell_type, cell_block in sorted(\n            cell_to_faces.items(), key=lambda item: int(item[0][len(\"polyhedron\") :])\n        ):",
+         "new": "        for cell_type, cell_block in cell_to_faces.items():"},
+    ],
     "C10": [
         {"name": "no_iterate_reset_after_failure", "file": SS,
          "old": "            self.equation_system.set_variable_values(prev_solution, iterate_index=0)\n", "new": "            pass\n"},
